@@ -177,6 +177,8 @@ def tracked_set(ob: Obj, v: VObj, ctx: Ctx) -> Optional[set]:
 
 def omitted(ob: Obj, f: F, val: Any, o: SOpts, ctx: Ctx, tracked: Optional[set]) -> bool:
     """THE omission rule"""
+    if isinstance(val, VAlts):  # a value that several alternatives of a union produce: the same value
+        val = val.first
     dflt_is_undef = f.has_default and f.default_value is UNDEF
     if val is UNDEF and (has_alt(f.type, "undefined", ctx) or dflt_is_undef):
         return True
